@@ -7,8 +7,10 @@ import (
 	"fmt"
 	"go/token"
 	"go/types"
+	"os"
 	"sort"
 	"strings"
+	"time"
 
 	"golang.org/x/tools/go/ssa"
 )
@@ -40,7 +42,12 @@ func runEntries(w *World, r *Report, entries []entrySpec) *Safe {
 		root.at(nil)
 		args := e.Args(sa, root, st, fn)
 		sa.stack = []*ssa.Function{fn}
+		t0 := time.Now()
+		w0 := sa.work
 		sa.analyzeFunc(root, args, st)
+		if os.Getenv("NASVERIF_DEBUG") != "" {
+			fmt.Fprintf(os.Stderr, "entry %-60s %6.2fs work=%d atoms=%d\n", e.Name, time.Since(t0).Seconds(), sa.work-w0, len(sa.u.atoms))
+		}
 		r.Site("safe.entries")
 	}
 	return sa
@@ -203,5 +210,121 @@ func propC01(w *World, r *Report, tier string) {
 		}
 	}
 	r.Expect("codec.array-guard", 8)
+	r.Extra["reachable_functions"] = len(sa.Funcs)
+}
+
+// ---------------------------------------------------------------------------------------------
+// C14
+
+func init() { register("C14", propC14) }
+
+// anyBytes: a []byte / string argument of arbitrary length and content (nil allowed).
+func anyArg(sa *Safe, fr *frame, st *State, t types.Type, desc string) AVal {
+	v := sa.freshM(fr, st, t, desc, nilMaybe)
+	if v.Obj != nil {
+		v.Obj.Summary = false
+	}
+	return v
+}
+
+// ieArg: a non-nil pointer to an IE struct as the decoder produces it: len(Buffer) == Len.
+func ieArg(sa *Safe, fr *frame, st *State, t types.Type, desc string) AVal {
+	p := nonNilPtrArg(sa, fr, st, t, desc)
+	pt, ok := t.Underlying().(*types.Pointer)
+	if !ok {
+		return p
+	}
+	stt, ok := pt.Elem().Underlying().(*types.Struct)
+	if !ok {
+		return p
+	}
+	var lenF, bufF *types.Var
+	for i := 0; i < stt.NumFields(); i++ {
+		switch stt.Field(i).Name() {
+		case "Len":
+			lenF = stt.Field(i)
+		case "Buffer":
+			bufF = stt.Field(i)
+		}
+	}
+	if lenF != nil && bufF != nil {
+		ln := sa.freshM(fr, st, lenF.Type(), desc+".Len", nilMaybe)
+		sa.storePath(st, p.Obj, ".Len", ln)
+		bo := sa.mObj(fr, desc+".Buffer", false)
+		sa.storePath(st, p.Obj, ".Buffer", AVal{Kind: avSlice, Obj: bo, Len: ln.Lin, Sym: sa.mSym(fr, desc+".Buffer"), HasSym: true, Type: bufF.Type()})
+	}
+	return p
+}
+
+func propC14(w *World, r *Report, tier string) {
+	r.Explanation = "Abstract interpretation (E3) of every conversion helper that interprets UE-supplied element contents, each entered with an arbitrary byte " +
+		"string / string of any length (nil and empty included); receivers that are IE structs are assumed only to be as the decoder produces them " +
+		"(len(Buffer) == Len). Every panic-capable instruction reachable from the entry is an obligation to be discharged on every path and every loop " +
+		"must match a ranking rule. An obligation the prover cannot discharge is reported with the function, the expression and the bounds known."
+	r.Assumptions = []string{
+		"[]byte / string arguments: any length, any content, possibly nil",
+		"IE struct receivers: non-nil, len(Buffer) == Len (established by SetLen in the decoder); any Len",
+		"text getters of MobileIdentity5GS and DNN: Buffer is an arbitrary byte string (these getters never look at Len)",
+		"stdlib contracts of checker/safe_calls.go (hex, strconv, strings, fmt never panic; hex.EncodeToString doubles the length)",
+	}
+	r.Trusted = []string{"go/ssa", "stdlib contracts in checker/safe_calls.go", "prove() fragment of checker/safe_domain.go"}
+	var entries []entrySpec
+	add := func(rel, name string, kinds ...string) {
+		f := w.LookupFunc(rel, name)
+		if f == nil {
+			r.Fail("anchor", rel+"."+name, "missing", token.NoPos, "entry point "+rel+"."+name+" not found", nil)
+			return
+		}
+		entries = append(entries, entrySpec{Fn: f, Name: FuncName(f), Args: func(sa *Safe, fr *frame, st *State, fn *ssa.Function) []AVal {
+			var args []AVal
+			for i, p := range fn.Params {
+				k := "any"
+				if i < len(kinds) {
+					k = kinds[i]
+				}
+				switch k {
+				case "ie":
+					args = append(args, ieArg(sa, fr, st, p.Type(), p.Name()))
+				case "recv":
+					a := nonNilPtrArg(sa, fr, st, p.Type(), p.Name())
+					args = append(args, a)
+				default:
+					args = append(args, anyArg(sa, fr, st, p.Type(), p.Name()))
+				}
+			}
+			return args
+		}})
+	}
+	for _, n := range []string{"SuciToString", "SuciToStringWithError", "NaiToString", "GutiToString", "GutiToStringWithError", "GutiToNas", "GutiToNasWithError",
+		"PeiToString", "PeiToStringWithError", "AmfIdToNas", "AmfIdToNasWithError", "LadnToModels", "UESecurityCapabilityToByteArray", "PSIToBooleanArray",
+		"UpuAckToModels", "GetTypeOfIdentity"} {
+		add("nasConvert", n)
+	}
+	add("nasConvert", "RequestedNssaiToModels", "ie")
+	for _, n := range []string{"DecodeUniversalTimeAndLocalTimeZone", "DecodeLocalTimeZone", "DecodeDaylightSavingTime"} {
+		if w.LookupFunc("nasConvert", n) != nil {
+			add("nasConvert", n, "recv")
+		}
+	}
+	// text getters of MobileIdentity5GS and DNN
+	for _, tn := range []string{"MobileIdentity5GS", "DNN"} {
+		o, _ := w.Pkg("nasType").Types.Scope().Lookup(tn).(*types.TypeName)
+		if o == nil {
+			r.Fail("anchor", "nasType."+tn, "missing", token.NoPos, "type not found", nil)
+			continue
+		}
+		ms := types.NewMethodSet(types.NewPointer(o.Type()))
+		for i := 0; i < ms.Len(); i++ {
+			m := ms.At(i).Obj().(*types.Func)
+			if !strings.HasPrefix(m.Name(), "Get") || m.Name() == "GetIei" || m.Name() == "GetLen" {
+				continue
+			}
+			add("nasType", tn+"."+m.Name(), "recv")
+		}
+	}
+	sa := runEntries(w, r, entries)
+	sa.report(r, "C14")
+	r.Expect("safe.entries", 30)
+	r.Extra["entry_points"] = len(entries)
 	r.Extra["reachable_functions"] = len(sa.Funcs)
 }
